@@ -72,7 +72,7 @@ def run(tier, seed):
     with open(first) as f, open(st, "w") as g:
         for i, line in enumerate(f):
             e = json.loads(line)
-            if e["ev"] == "bframe" and n < 2:
+            if e["ev"] == "bframe" and n < 2 and e.get("midload", -1) < 0:     # (the picture of a frame with a load is not judged)
                 if n == 0:
                     e["rows"][5][0][0] = (e["rows"][5][0][0] + 1) % 8      # a top-border row in the wrong colour
                 else:
